@@ -298,6 +298,9 @@ def extract(h):
                "`common+walker` = getopts; `noarg` = common/no_arg.rs; `ignores` = arguments unused) -/")
     out.append("def builtinParsers : List (String × String × List String) := [\n" + ",\n".join(
         f"  ({h.lean_str(m)}, {h.lean_str(k)}, [{', '.join(h.lean_str(t) for t in ts)}])" for m, k, ts in audit) + "]\n")
+    out.append("/-- every error enum of the built-ins (file, enum, variants in source order) -/")
+    out.append("def errorEnums : List (String × String × List String) := [\n" + ",\n".join(
+        f"  ({h.lean_str(f)}, {h.lean_str(n)}, [{', '.join(h.lean_str(v) for v in vs)}])" for f, n, vs in error_enums(h, files)) + "]\n")
     out.append("def all : List (String × List Row) := [\n"
                + ",\n".join(f"  ({h.lean_str(n)}, specs_{n})" for n, _, _, _ in tables) + "]\n")
     h.write("ArgSpecs", "\n".join(out))
@@ -364,6 +367,70 @@ def parser_audit(h, files):
     for m, k, _ in rows:
         if k.startswith("as:") and kinds.get(k[3:]) != "common":
             h.fail(f"args: `{m}` re-exports the syntax module of `{k[3:]}`, which is not a common-parser built-in")
+    return rows
+
+
+def strip_attrs(body):
+    """remove `#[…]` attributes (they may contain strings with brackets)"""
+    out, i = "", 0
+    while i < len(body):
+        if body.startswith("#[", i):
+            depth, j = 0, i + 1
+            while j < len(body):
+                c = body[j]
+                if c == '"':
+                    j += 1
+                    while body[j] != '"':
+                        j += 2 if body[j] == "\\" else 1
+                elif c == "[":
+                    depth += 1
+                elif c == "]":
+                    depth -= 1
+                    if depth == 0:
+                        break
+                j += 1
+            i = j + 1
+        else:
+            out += body[i]
+            i += 1
+    return out
+
+
+def error_enums(h, files):
+    """every `pub enum …Error…` of a built-in's non-test code: file, enum name, variant names (in source order).  A built-in
+    that gains an error class changes this table, and the pinned Lean fact with it."""
+    rows = []
+    for rel in sorted(files):
+        if rel.endswith("common/syntax.rs"):
+            continue
+        src = non_test(strip_comments(h.read(rel)))
+        for m in re.finditer(r"pub\s+enum\s+(\w*Error\w*)\s*(?:<[^>{]*>)?\s*\{", src):
+            body = h.item_body(src[m.start():], r"pub\s+enum\s+\w+\s*(?:<[^>{]*>)?\s*", f"{rel} enum {m.group(1)}")
+            body = strip_attrs(body)
+            variants = []
+            els, depth, cur = [], 0, ""
+            for ch in body:
+                if ch in "([{<":
+                    depth += 1
+                elif ch in ")]}>":
+                    depth -= 1
+                if ch == "," and depth == 0:
+                    els.append(cur)
+                    cur = ""
+                else:
+                    cur += ch
+            if cur.strip():
+                els.append(cur)
+            for el in els:
+                if not el.strip():
+                    continue
+                mm = re.match(r"\s*([A-Z]\w*)", el)
+                if not mm:
+                    h.fail(f"args: cannot read a variant of {rel} enum {m.group(1)}: {el[:60]}")
+                variants.append(mm.group(1))
+            rows.append((rel[len(SRC) + 1:], m.group(1), variants))
+    if len(rows) < 15:
+        h.fail(f"args: only {len(rows)} error enums found (anchor lost?)")
     return rows
 
 
